@@ -33,7 +33,7 @@ PROBES = ['replacement-happened', 'queued', 'refused-do-not-queue', 'already-own
           'release-promotes-waiter', 'waiting-peer-releases', 'owner-disconnects-with-waiter',
           'waiting-peer-disconnects', 'release-not-owner', 'release-nonexistent',
           'requests-concurrently-in-flight', 'real-client-request', 'queue-of-three',
-          'replaced-owner-fate-observed', 'reset-disconnect', 'ten-or-more-peers', 'peer-without-hello', 'kicked-by-the-bus',
+          'replaced-owner-fate-observed', 'reset-disconnect', 'ten-or-more-peers', 'peer-without-hello', 'kicked-by-the-bus', 'request-for-a-name-nobody-may-own',
           'request-without-reply', 'name-of-255-characters']
 COMPONENTS = {
     'real': ['txdbus.bus.Bus (dbus_RequestName, dbus_ReleaseName, dbus_GetNameOwner, '
@@ -182,8 +182,11 @@ def scenario(ctx):
             sim.probe('real-client-request')
             eu = bool(ds.choose(2))
             before = len(p['sent'])
-            d = rig.call(p, p['proto'].requestBusName, n, allowReplacement=A, replaceExisting=R,
-                         doNotQueue=D, errbackUnlessAcquired=eu)
+            # flag arguments are truth values: any truthy / falsy object means what True / False mean
+            def tv(b):
+                return ds.pick([True, True, 1, 2, 4, 'yes']) if b else ds.pick([False, False, 0, None, ''])
+            d = rig.call(p, p['proto'].requestBusName, n, allowReplacement=tv(A), replaceExisting=tv(R),
+                         doNotQueue=tv(D), errbackUnlessAcquired=eu)
             m = p['sent'][-1]
             results.append({'p': p, 'serial': m.serial, 'obs': Obs(sim, 'req').watch(d), 'eu': eu,
                             'kind': 'request'})
@@ -193,6 +196,28 @@ def scenario(ctx):
         p['pending'][m.serial] = ('request', n, A, R, D) if not noreply else ('request-noreply', n, A, R, D)
         note_sent(p)
         sim.log('op', 'request', p['idx'], n[:20], flags, noreply)
+
+    BAD_NAMES = ['', ':1.99', 'nodots', 'a..b', 'org.sim.' + 'x' * 260]
+
+    def op_invalid(p):
+        # a name nobody may own: refused, and nothing about it exists afterwards
+        bad = ds.pick(BAD_NAMES)
+        what = ds.weighted([3, 2, 2])
+        if what == 0:
+            m = p['proto'].bus_call('RequestName', 'su', [bad, ds.choose(8)])
+            p['pending'][m.serial] = ('invalid-request', bad)
+            refused.add(bad)
+        elif what == 1:
+            m = p['proto'].bus_call('ReleaseName', 's', [bad])
+            p['pending'][m.serial] = ('invalid-release', bad)
+        else:
+            m = p['proto'].bus_call('GetNameOwner', 's', [bad])
+            p['pending'][m.serial] = ('invalid-owner', bad)
+        note_sent(p)
+        sim.probe('request-for-a-name-nobody-may-own')
+        sim.log('op', 'invalid', p['idx'], what, bad[:12])
+
+    refused = set()
 
     def op_release(p):
         n = ds.pick(names)
@@ -272,7 +297,9 @@ def scenario(ctx):
                 if not live:
                     return
                 p = live[ds.choose(len(live))]
-                if k == 0 or k == 4:
+                if p['kind'] == 'ref' and ds.flag(0.08):
+                    op_invalid(p)
+                elif k == 0 or k == 4:
                     op_request(p)
                 elif k == 1:
                     op_release(p)
@@ -320,6 +347,24 @@ def scenario(ctx):
                             % (desc, c, len(mine)))
         r = mine[0]
         kind = desc[0]
+        if kind.startswith('invalid-'):
+            bad = desc[1]
+            if kind == 'invalid-request':
+                ok = r.mtype == rc.ERROR
+            elif kind == 'invalid-release':
+                # nothing of that name exists (2), or the name is refused as such
+                ok = (r.mtype == rc.METHOD_RETURN and r.body == [2]) or r.mtype == rc.ERROR
+            else:
+                ok = r.mtype == rc.ERROR and r.fields.get(rc.F_ERROR_NAME) in (
+                    E_NO_OWNER, 'org.freedesktop.DBus.Error.InvalidArgs')
+            if not ok:
+                raise Violation('C13/invalid-name', kind[8:] + (' after a refused request' if bad in refused else ''),
+                                '%s for the name %r (which nobody may own) answered %r'
+                                % (kind[8:], bad[:20], r.describe()))
+            for q in peers:
+                if acquired_signals(new_by_peer.get(q['idx'], []), bad):
+                    raise Violation('C13/invalid-name', 'NameAcquired', 'NameAcquired for %r' % bad[:20])
+            return
         if kind == 'request':
             _, n, A, R, D = desc
             if r.mtype != rc.METHOD_RETURN or r.sig != 'u':
